@@ -134,7 +134,7 @@ fn build_input(c: &XformCase) -> Buf {
     buf
 }
 
-fn check_xform(c: &XformCase, st: &mut Stats) -> CheckResult {
+pub fn check_xform(c: &XformCase, st: &mut Stats) -> CheckResult {
     let size = 1usize << c.size_log;
     ensure!(c.trunc <= size && c.skew_delta + size <= 65536, "harness: case outside the contract");
     let input = build_input(c);
